@@ -100,7 +100,7 @@ def run(ctx, replay=None):
     else:
         l1(ctx, "MCStore", l1cfg(3, 7), name="L1-MCStore-N3-ops7")
         l1(ctx, "MCStore", l1cfg(4, 5), name="L1-MCStore-N4-ops5", timeout=3000)
-    count = 400 if ctx.quick else 12000
+    count = (800 if ctx.pid in ('C08', 'C09') else 400) if ctx.quick else 12000
     out, summ = drive(ctx, {"VH_COUNT": count, "VH_KINDS": KINDS[ctx.pid]})
     judge(ctx, out, summ)
     if summ["hangs"]:
